@@ -14,7 +14,8 @@ RULE = ("Hypothesis draws a process set (general model grammar of C01) and two o
         "objects, list declarations, given order) and a variant with a generated route per process (Event, Event whose first member "
         "transition carries the rate, Transition with its own rate in event=, legacy transition=/birth_death= lists, incremental add_event / "
         "add_transition / add_birth_death), births re-declared by origin instead of destination and vice versa, space- or comma-separated "
-        "string declarations, and a generated permutation of the processes; plus the whole model entered as explicit ode= strings. "
+        "string declarations, and a generated permutation of the processes, with the constructor arguments wrapped as lists, tuples, or (1 case in 4) a lone "
+        "birth_death= / ode= entry handed over as the bare Transition object the setters accept; plus the whole model entered as explicit ode= strings. "
         "Oracle (metamorphic): get_ode_eqn() of the variants differ by an expression that expands to 0 (30-digit numeric fallback), ode, "
         "jacobian and grad agree at 3 generated points (rtol 1e-10), eventRateVector and vMat agree up to the known permutation of events. "
         "Non-trivial = >=3 processes, >=2 different routes used and a birth present; distinct by (model, routes, permutation) hash.")
@@ -34,6 +35,20 @@ def strategy(tier):
     @st.composite
     def case(draw):
         m = draw(S.general_model(min_events=1, max_events=5))
+        # how the constructor arguments are wrapped: list, tuple, or a lone birth_death / ode entry handed over as the bare
+        # Transition object (the birth_death_list / ode_list setters accept that in place of a list)
+        container = draw(st.sampled_from(["list", "list", "tuple", "bare"]))
+
+        def _bd(mm):
+            return [i for i, ev in enumerate(mm["events"]) if "legacy" in render.allowed_routes(ev) and ev["trans"][0]["kind"] in "BD"]
+        if container == "bare" and not _bd(m):
+            # make sure the class is populated: add one unit birth or death process
+            names = ir.state_names(m)
+            rate, kind = draw(S.rate_expr(names, m["params"], [d["name"] for d in m["derived"]]))
+            st_ = draw(st.sampled_from(names))
+            tr = {"kind": "D", "o": st_, "d": None, "mag": {"int": 1}} if draw(st.booleans()) else \
+                {"kind": "B", "o": None, "d": st_, "mag": {"int": 1}, "birth_by": draw(st.sampled_from(["origin", "destination"]))}
+            m["events"].append({"rate": rate, "rate_kind": kind, "trans": [tr]})
         routes = []
         for ev in m["events"]:
             allowed = render.allowed_routes(ev)
@@ -41,7 +56,15 @@ def strategy(tier):
                 allowed = ["legacy", "add_legacy"]          # rare otherwise: make the legacy lists a real class
             routes.append(draw(st.sampled_from(allowed)))
         perm = list(draw(st.permutations(list(range(len(m["events"]))))))
-        return {"model": m, "routes": routes, "perm": perm,
+        if container == "bare":
+            bd = _bd(m)
+            keep = draw(st.sampled_from(bd))
+            for i in bd:
+                if i == keep:
+                    routes[i] = "legacy"
+                elif routes[i] == "legacy":
+                    routes[i] = "add_legacy"
+        return {"model": m, "routes": routes, "perm": perm, "container": container,
                 "state_style": draw(st.sampled_from(["list", "space", "comma", "tuples"])),
                 "param_style": draw(st.sampled_from(["list", "space", "comma"])),
                 "flip_births": draw(st.booleans()),
@@ -75,16 +98,22 @@ def oracle(case, rec):
     except Exception as e:
         raise PropertyViolation("C12/construct-baseline/" + type(e).__name__, "baseline raised %r" % (e,), case)
     try:
-        builds["variant"] = render.build(var_m, case["routes"], case["perm"])
+        builds["variant"] = render.build(var_m, case["routes"], case["perm"], container=case.get("container", "list"))
     except Exception as e:
         raise PropertyViolation("C12/construct-variant/" + type(e).__name__, "variant (routes %s) raised %r" % (case["routes"], e), case)
     try:
-        builds["as_ode"] = render.build(var_m, as_ode=True)
+        builds["as_ode"] = render.build(var_m, as_ode=True, container=case.get("container", "list"))
     except Exception as e:
         raise PropertyViolation("C12/construct-ode/" + type(e).__name__, "explicit-ODE variant raised %r" % (e,), case)
     for r in set(case["routes"]):
         rec.label("route:" + r)
     rec.label("style:" + case["state_style"], "pstyle:" + case["param_style"])
+    cont = case.get("container", "list")
+    if cont == "bare":
+        n_bd = sum(1 for r, ev in zip(case["routes"], m["events"]) if r == "legacy" and ev["trans"][0]["kind"] in "BD")
+        rec.label("ctor:bare-birth_death" if n_bd == 1 else "ctor:bare-not-applicable")
+    else:
+        rec.label("ctor:" + cont)
     base, order0 = builds["baseline"]
     eq0 = call("C12/get_ode_eqn", case, base.get_ode_eqn)
     for name in ("variant", "as_ode"):
